@@ -131,7 +131,7 @@ def main(ck):
             with open(p, 'w') as f:
                 f.write(m['source'])
             jobs.append({'src': p, 'directives': m['option']})
-        tres, _ = tree.translate(jobs)
+        tres, _ = tree.translate(jobs, timeout=ck.pick(1800, 10800))    # generous: the translate workers share the machine
         ok_names = [n for n, r in zip(mods, tres) if r['ok']]
         for n, r in zip(mods, tres):
             if not r['ok']:
